@@ -87,7 +87,7 @@ def log_rat(r: Rat) -> Rat:
 
 
 class Interp:
-    def __init__(self, fn: ast.FunctionDef, dims: List[str], flags: Dict[str, bool], init=None):
+    def __init__(self, fn: ast.FunctionDef, dims: List[str], flags: Dict[str, bool], init=None, helpers=None, assume_one=()):
         self.fn = fn
         self.init = init
         self.dims = dims
@@ -95,6 +95,10 @@ class Interp:
         self.env: Dict[str, object] = {}
         self.ret: Optional[object] = None
         self.unshifted_exp: list = []   # exp(...) whose argument still contains the log marginal likelihood c
+        self.helpers = helpers or {}    # module-level functions of the objective's module(s), inlined at their call sites
+        self.assume_one = set(assume_one)   # sample dimensions assumed to have size one in this run (a single inner / outer draw)
+        self.size_tests: list = []      # tests `x.shape[-1] == 1` on a value whose last axis is a sample axis
+        self.mixes: list = []           # element-wise operations that broadcast a sample axis of size one against another sample axis
 
     def scalar_atom(self, e):
         a = self_attr(e)
@@ -202,6 +206,23 @@ class Interp:
                 return Val(Rat.const(1), C, self.dims)
             if self_attr(f) == 'q' and not e.args:
                 return Val(Rat.const(1), Rat.const(0), self.dims)
+            # a model handed to a helper and called there: q() / p()
+            if isinstance(f, ast.Name) and isinstance(self.env.get(f.id), tuple) and self.env[f.id][:1] == ('model',) and not e.args:
+                return Val(Rat.const(1), C if self.env[f.id][1] == 'p' else Rat.const(0), self.dims)
+            # module-level helper: evaluated in place with its parameters bound
+            if isinstance(f, ast.Name) and f.id in self.helpers and not e.keywords and len(e.args) == len(self.helpers[f.id].args.args):
+                hf = self.helpers[f.id]
+                sub = Interp(hf, self.dims, self.flags, self.init, self.helpers, self.assume_one)
+                sub.unshifted_exp, sub.size_tests, sub.mixes = self.unshifted_exp, self.size_tests, self.mixes
+                for prm, a in zip(hf.args.args, e.args):
+                    if self_attr(a) in ('p', 'q'):
+                        sub.env[prm.arg] = ('model', self_attr(a))
+                    else:
+                        sub.env[prm.arg] = self.value(a)
+                out = sub.run()
+                if out is None:
+                    raise Unsupported(e, f"helper {f.id} returns nothing on this path")
+                return out
             # size of the last dim
             if nm == 'log' and isinstance(f, ast.Attribute) and isinstance(f.value, ast.Call) and method_name(f.value) in ('tensor', 'as_tensor') and f.value.args:
                 s = self.shape_last(f.value.args[0])
@@ -245,6 +266,8 @@ class Interp:
                         raise Unsupported(e, 'log of a value that varies with the draw')
                     return Val(Rat.const(0), log_rat(recv.c), recv.dims)
                 return log_rat(recv)
+            if nm == 'squeeze' and isinstance(recv, Val) and recv.dims and recv.dims[-1] in self.assume_one and (not args or ast.unparse(args[0]) == '-1'):
+                return Val(recv.q, recv.c, recv.dims[:-1])       # the last axis has size one in this run: it is removed
             if nm in ('squeeze', 'unsqueeze', 'clone', 'contiguous'):
                 return recv
             raise Unsupported(e, f"call {nm} outside the vocabulary")
@@ -262,6 +285,11 @@ class Interp:
                 sgn = 1 if isinstance(e.op, ast.Add) else -1
                 if isinstance(l, Val) and isinstance(r, Val):
                     dims = l.dims if len(l.dims) >= len(r.dims) else r.dims
+                    if self.assume_one:
+                        for dl, dr in zip(reversed(l.dims), reversed(r.dims)):
+                            if dl != dr and (dl in self.assume_one or dr in self.assume_one) and not (l.uniform() and r.uniform()):
+                                # [S, K=1] against [S]: the size-one axis is broadcast along the OTHER operand's sample axis — entry (i, j) pairs draw i with draw j
+                                self.mixes.append((e, l.dims, r.dims))
                     return Val(l.q + r.q * sgn, l.c + r.c * sgn, dims)
                 if isinstance(l, Val):
                     return Val(l.q, l.c + r * sgn, l.dims)
@@ -297,6 +325,33 @@ class Interp:
                         ast.GtE: n >= rhs.value, ast.LtE: n <= rhs.value}[type(t.ops[0])]
         if isinstance(t, ast.UnaryOp) and isinstance(t.op, ast.Not):
             return not self.test(t.operand)
+        if isinstance(t, ast.BoolOp):
+            vals = [self.test(v) for v in t.values]
+            return all(vals) if isinstance(t.op, ast.And) else any(vals)
+        if isinstance(t, ast.Compare) and len(t.ops) == 1 and isinstance(t.comparators[0], ast.Constant) and isinstance(t.comparators[0].value, int):
+            k = t.comparators[0].value
+            cmp = {ast.Eq: lambda a: a == k, ast.NotEq: lambda a: a != k, ast.Gt: lambda a: a > k, ast.Lt: lambda a: a < k, ast.GtE: lambda a: a >= k, ast.LtE: lambda a: a <= k}[type(t.ops[0])]
+            lhs = t.left
+            # x.dim() / x.ndim / len(x.shape): the rank is known
+            tgt = None
+            if isinstance(lhs, ast.Call) and method_name(lhs) in ('dim', 'ndimension') and isinstance(lhs.func, ast.Attribute):
+                tgt = lhs.func.value
+            elif isinstance(lhs, ast.Attribute) and lhs.attr == 'ndim':
+                tgt = lhs.value
+            if tgt is not None:
+                v = self.value(tgt)
+                if isinstance(v, Val):
+                    return cmp(len(v.dims))
+            # x.shape[-1] == 1 on a value whose last axis is a sample axis: true exactly in the runs that assume that axis has size one
+            if isinstance(lhs, ast.Subscript) and isinstance(lhs.value, ast.Attribute) and lhs.value.attr == 'shape' and ast.unparse(lhs.slice) == '-1' and k == 1 \
+                    and isinstance(t.ops[0], (ast.Eq, ast.NotEq)):
+                v = self.value(lhs.value.value)
+                if isinstance(v, Val):
+                    if not v.dims:
+                        raise Unsupported(t, 'shape[-1] of a 0-d value raises')
+                    self.size_tests.append((t, v.dims[-1]))
+                    one = v.dims[-1] in self.assume_one
+                    return one if isinstance(t.ops[0], ast.Eq) else not one
         raise Unsupported(t, f"condition {ast.unparse(t)} not understood")
 
     def run(self):
@@ -335,8 +390,33 @@ def check_tightness(ctx, rep):
             key = f"{cls.name}._call::sample-shape=[{','.join(dims)}]"
             try:
                 ir = cls.resolve('__init__')
-                it = Interp(fn, dims, {'score': False, 'entropy': False}, ir[1] if ir else None)
+                helpers = {}
+                for k_ in cls.internal_mro():
+                    for hn, hf in k_.module.functions.items():
+                        helpers.setdefault(hn, hf)
+                    for imp in k_.module.tree.body:      # helpers imported from a sibling module of the package
+                        if isinstance(imp, ast.ImportFrom):
+                            for al in imp.names:
+                                for m2 in ctx.prog.modules.values():
+                                    if m2.name.startswith('torchtree.variational') and al.name in m2.functions:
+                                        helpers.setdefault(al.asname or al.name, m2.functions[al.name])
+                it = Interp(fn, dims, {'score': False, 'entropy': False}, ir[1] if ir else None, helpers)
                 val = it.run()
+                # the code asked whether a sample axis has size one: evaluate again for a single inner / outer draw (K = 1, S = 1), where that test is true
+                if it.size_tests:
+                    for d1 in sorted({d for _, d in it.size_tests}):
+                        it1 = Interp(fn, dims, {'score': False, 'entropy': False}, ir[1] if ir else None, helpers, assume_one={d1})
+                        try:
+                            it1.run()
+                        except Unsupported:
+                            pass
+                        for node, ld, rd in it1.mixes:
+                            rep.bad('C14.T', f"{key}::{d1}=1::samples-paired-across-draws::{norm_text(node)[:40]}", where(cls.module, node), {'left_axes': ld, 'right_axes': rd, 'assumed_size_one': d1},
+                                    f"{cls.name}: the evaluation tests whether the last axis has size one ({norm_text(it.size_tests[0][0])[:50]}) and that axis can be the sample axis {d1}; "
+                                    f"with a single draw along {d1} the test is true, the axis is dropped from one operand only, and `{norm_text(node)[:50]}` broadcasts {ld} against {rd}: "
+                                    f"entry (i, j) combines log p of draw i with log q of draw j, so the objective is no longer c at the true posterior")
+                        if not it1.mixes:
+                            rep.ok('C14.T', f"{key}::{d1}=1::no-pairing-across-draws", where(cls.module, fn))
                 # exp is only applied to log-weights from which the common level was removed (− logsumexp / − max): exp(c + …) under- or overflows for a large |log Z|
                 for node, shown_arg in it.unshifted_exp:
                     rep.bad('C14.T', f"{key}::exp-of-unshifted-log-weights::{norm_text(node)[:40]}", where(cls.module, node), {'argument_at_true_posterior': shown_arg},
